@@ -714,7 +714,14 @@ func parseCharacterEscape(text []byte) (end int) {
 
 func isEntity(x []byte) bool {
 	s := html.UnescapeString(string(x))
-	return !strings.HasPrefix(s, "&") || !strings.HasSuffix(s, ";")
+	if s == string(x) {
+		return false
+	}
+	// html.UnescapeString also expands the legacy names that browsers accept
+	// without a semicolon when they are only a prefix of the name
+	// ("&notit;" becomes "¬it;"). An entity reference must be consumed whole:
+	// then nothing of the name, and in particular not its semicolon, is left.
+	return !strings.HasSuffix(s, ";") || s == ";"
 }
 
 func (p *InlineParser) parseDelimiterRun(state *inlineState, start int) (end int) {
